@@ -24,6 +24,7 @@ import KatdalModel.Lemmas.ApplyCalGain
 import KatdalModel.Lemmas.ApplyCalStitch
 import KatdalModel.Lemmas.ApplyCalNames
 import Mathlib.Tactic.Ring
+import Mathlib.Algebra.Order.Field.Rat
 open Np ApplyCal
 
 set_option linter.unusedSectionVars false
@@ -380,6 +381,28 @@ theorem c14_gain_holds_last [LawfulBEq F] (A : CAlg S F) (R : ROps F) (hmod : Mo
   exact polar_last A R hmod hpolar _ hne (validPts_finite A R evs tg _ c) φ hφ
 
 end gain
+
+/-! non-vacuity of the gain hypotheses: an instance over ℚ in which `ModLaw`, `PolarLaw`, strict
+    monotonicity of the dump index and `EventsSorted` all hold -/
+
+def qOps : KOps ℚ ℚ :=
+  { star := id, normSq := fun x => x * x, abs := id, angle := fun _ => 0, polar := fun m _ => m,
+    divReal := fun x r => x / r, cis := fun _ => 1 }
+def qA : CAlg (Scalar ℚ) ℚ := Scalar.alg qOps
+def qR : ROps ℚ := { pi := 3, fmod := fun a _ => a, sqrt := id, ofNat := Nat.cast }
+
+example : ModLaw qR := fun a b => ⟨0, by simp [qR]⟩
+example : PolarLaw qA qR := by
+  intro z n hz
+  cases z with
+  | nan => simp [qA, Scalar.alg, Scalar.isNan] at hz
+  | val x => simp [qA, Scalar.alg, qOps]
+example : ∀ a b : ℕ, a < b → qR.ofNat a < qR.ofNat b := fun _ _ h => Nat.cast_lt.mpr h
+example : EventsSorted [(1, [Scalar.val (2 : ℚ)]), (4, [Scalar.nan]), (6, [Scalar.val 5])] := by
+  simp [EventsSorted]
+example : validPts qA qR [(1, [Scalar.val (2 : ℚ)]), (4, [Scalar.nan]), (6, [Scalar.val 5])] [0, 0, 0, 0, 1, 1, 0] 0 0
+    = [(1, Scalar.val 2), (6, Scalar.val 5)] := by
+  simp [validPts, qA, qR, Scalar.alg, Scalar.isNan]
 
 /-! ### flux scale -/
 
